@@ -160,6 +160,7 @@ func C03(c *Ctx) {
 
 	c.c03NoMemo()
 	c.c03Digest()
+	c.c03SideSelector()
 
 	// ---- R03.2
 	cha := core.NewCHA(c.P)
@@ -591,6 +592,27 @@ func (c *Ctx) c03Partition(vp *ssa.Function) {
 			for _, e := range ph.Edges {
 				if endsAtLen(e, d+1) {
 					return true
+				}
+			}
+		}
+		// the bounds come from a range helper (start, end := proofGroupRange(i, groupNum, groupLen, len(txs))): some
+		// return of the helper hands back, as this result, the parameter that receives len(txs)
+		if ex, ok := v.(*ssa.Extract); ok {
+			if call, ok := ex.Tuple.(*ssa.Call); ok {
+				if h := core.StaticCallee(call); h != nil && len(h.Blocks) > 0 && c.P.InModule(h) {
+					for _, ret := range core.Returns(h) {
+						if ex.Index >= len(ret.Results) {
+							continue
+						}
+						res := ret.Results[ex.Index]
+						if pi := paramIndex(h, core.Strip(res)); pi >= 0 && pi < len(call.Call.Args) {
+							if isLenOfBlock(call.Call.Args[pi]) {
+								return true
+							}
+						} else if isLenOfBlock(res) {
+							return true
+						}
+					}
 				}
 			}
 		}
